@@ -21,7 +21,7 @@
    named at the theorems; time tags are outside. *)
 From Coq Require Import List ZArith.
 From RtoscV Require Import Pretty.Tok Pretty.FloatFmt Pretty.PrintModel Pretty.ScanModel
-  Pretty.PrettyProofs Pretty.FloatProofs Pretty.SymBlobProofs Pretty.RangeProofs Pretty.RunProofs Pretty.ListProofs Pretty.ArrayProofs Pretty.MixedProofs Pretty.PrettyRegress.
+  Pretty.PrettyProofs Pretty.FloatProofs Pretty.SymBlobProofs Pretty.RangeProofs Pretty.RunProofs Pretty.ListProofs Pretty.ArrayProofs Pretty.MixedProofs Pretty.MixedPrint Pretty.PrettyRegress.
 Import ListNotations.
 Local Open Scope Z_scope.
 
@@ -99,11 +99,11 @@ Proof. exact elements_agree. Qed.
    contain both +0.0 and -0.0 of one type (nozmix: finding signed-zero-run, the
    classifier's predicate); symbols printed bare (identifier-shaped, no reserved
    word) and blobs of any length with their line breaks (goodx); arrays among
-   other values and time tags are outside), the returned count
+   other values: C10_roundtrip_any_partial below; time tags are outside), the returned count
    is the text length, the checker accepts with the number of slots the scanner
    then writes, the scanner consumes the whole text, and the slots expand to
    the original values. *)
-Theorem C10_roundtrip_any_partial : forall (dec2f dec2d : list Z -> Z) o vs text w,
+Theorem C10_roundtrip_values_partial : forall (dec2f dec2d : list Z -> Z) o vs text w,
   Forall (goodv o) vs -> nozmix vs -> Z.of_nat (length vs) < 2 ^ 31 ->
   print_arg_vals o vs 0 = Some (text, w) ->
   exists slots,
@@ -115,7 +115,7 @@ Proof. exact roundtrip_any_nz. Qed.
 
 (* the same for whole messages (rtosc_print_message / count_of_msg /
    rtosc_scan_message), compression on or off *)
-Theorem C10_message_any_partial : forall (dec2f dec2d : list Z -> Z) o addr vs text w,
+Theorem C10_message_values_partial : forall (dec2f dec2d : list Z -> Z) o addr vs text w,
   good_addr addr -> Forall (goodv o) vs -> nozmix vs -> Z.of_nat (length vs) < 2 ^ 31 ->
   print_message o addr vs 0 = Some (text, w) ->
   exists slots,
@@ -124,6 +124,54 @@ Theorem C10_message_any_partial : forall (dec2f dec2d : list Z -> Z) o addr vs t
     scan_message dec2f dec2d text (Z.of_nat (length slots)) = Ok (addr, slots, []) /\
     expand slots = Some vs.
 Proof. exact message_roundtrip_any_nz. Qed.
+
+(* LISTS THAT MIX ARRAYS WITH OTHER VALUES, every option record.  The list is
+   given as a list of values (TS v) and arrays of values (TA type elements);
+   flat is its slot layout (array header, then the elements), the input of
+   rtosc_print_arg_vals.  For values as above (goodv; the condition on the
+   zeroes over all values, also those inside arrays) and arrays whose elements
+   have one type (homog; true and false count as one; "[]" included): the
+   returned count is the text length, the checker accepts with the number of
+   slots the scanner then writes, the scanner consumes the whole text, and the
+   slots expand (expand_deep: ranges and repetitions expanded - also inside
+   arrays and repetitions OF arrays "Nx[...]" -, element counts adjusted) to the
+   original list, each array carrying the type of its last element (canon: the
+   text holds no more; the blank for "[]").
+   No side condition on the position of arrays and runs is left: a run directly
+   after an array is printed "b ... c" only if the array's last value has
+   another type or equals b, and then all three functions use the unit step
+   (repo commit 94686c2 made the checker agree).  What remains of the class
+   range-after-array concerns hand-written text only (C10_mixed_reads_partial).
+   Outside: arrays of arrays, time tags, '.' in strings (D28), NaN/inf. *)
+Theorem C10_roundtrip_any_partial : forall (dec2f dec2d : list Z -> Z) o tvs text w,
+  Forall (goodtv o) tvs -> nozmix (scalars tvs) -> Z.of_nat (length (flat tvs)) < 2 ^ 31 ->
+  print_arg_vals o (flat tvs) 0 = Some (text, w) ->
+  exists slots,
+    w = len text /\
+    count_printed_arg_vals dec2f dec2d text = Ok (true, Z.of_nat (length slots)) /\
+    scan_arg_vals dec2f dec2d text (Z.of_nat (length slots)) = Ok (slots, []) /\
+    expand_deep slots = Some (flat (canon tvs)).
+Proof. exact roundtrip_mixed_nz. Qed.
+
+(* the same for whole messages *)
+Theorem C10_message_any_partial : forall (dec2f dec2d : list Z -> Z) o addr tvs text w,
+  good_addr addr -> Forall (goodtv o) tvs -> nozmix (scalars tvs) -> Z.of_nat (length (flat tvs)) < 2 ^ 31 ->
+  print_message o addr (flat tvs) 0 = Some (text, w) ->
+  exists slots,
+    w = len text /\
+    count_printed_arg_vals_of_msg dec2f dec2d text = Ok (true, Z.of_nat (length slots)) /\
+    scan_message dec2f dec2d text (Z.of_nat (length slots)) = Ok (addr, slots, []) /\
+    expand_deep slots = Some (flat (canon tvs)).
+Proof. exact message_roundtrip_mixed_nz. Qed.
+
+(* non-vacuity: [1 2 3 4 5 6 9] 9 10 11 12 13 true [] [] [] [] [] is printed
+   "[1 ... 6 9] 9 ... 13 true 5x[]" *)
+Theorem C10_roundtrip_mixed_nonvacuous : forall o,
+  Forall (goodtv o) ex_tvs /\ nozmix (scalars ex_tvs) /\
+  print_arg_vals {| lossless := true; prec := 2; linelength := 80; compress := true |} (flat ex_tvs) 0
+  = Some ([91; 49; 32; 46; 46; 46; 32; 54; 32; 57; 93; 32; 57; 32; 46; 46; 46; 32; 49; 51; 32;
+           116; 114; 117; 101; 32; 53; 120; 91; 93], 30).
+Proof. exact roundtrip_mixed_example. Qed.
 
 (* non-vacuity: a list with a constant run, an elided and an explicit run *)
 Theorem C10_roundtrip_any_nonvacuous : forall o,
